@@ -273,11 +273,15 @@ func printNode(sb *strings.Builder, n *Node) {
 		sb.WriteString("{/if}")
 	case "switch":
 		sb.WriteString("{switch " + n.E + "}")
+		if n.Else != nil && n.S == "default-first" {
+			sb.WriteString("{default}")
+			printNodes(sb, n.Else)
+		}
 		for _, c := range n.Conds {
 			sb.WriteString("{case " + c.E + "}")
 			printNodes(sb, c.Body)
 		}
-		if n.Else != nil {
+		if n.Else != nil && n.S != "default-first" {
 			sb.WriteString("{default}")
 			printNodes(sb, n.Else)
 		}
